@@ -30,6 +30,7 @@ type vProgSink struct {
 	rc      *runCtx
 	width   *int32 // width currently in force
 	maxW    int32  // largest width in force since the previous emitted line
+	oldW    int32  // while a resize call has not returned yet: the width it replaces (still in force for the bar until then)
 	lines   int
 	bad     string
 	lastPct int
@@ -51,6 +52,9 @@ func (s *vProgSink) Write(p []byte) (int, error) {
 		if cur := *s.width; cur > limit {
 			limit = cur
 		}
+		if s.oldW > limit {
+			limit = s.oldW
+		}
 		if limit >= 5 && int32(w) > limit && s.bad == "" {
 			s.bad = fmt.Sprintf("a progress line of display width %d was written while the widest width in force was %d: %q", w, limit, vClip(vis, 160))
 		}
@@ -65,6 +69,9 @@ func (s *vProgSink) Write(p []byte) (int, error) {
 			s.lastPct = v
 		}
 		s.maxW = *s.width
+		if s.oldW > s.maxW {
+			s.maxW = s.oldW
+		}
 	}
 	return len(p), nil
 }
@@ -139,8 +146,10 @@ func vScenarioC20(rc *runCtx) {
 				if cur > sink.maxW {
 					sink.maxW = cur
 				}
+				sink.oldW = cur
 				cur = nw
 				bar.setTerminalColumns(nw)
+				sink.oldW = 0
 				resizes++
 			case 2:
 				bar.setPause(true)
@@ -313,6 +322,7 @@ func vC20System(rc *runCtx) {
 	armed := vArmAfterCfg(x)
 	cols := o.cols
 	resizedAt := -1
+	var hooks []*bool
 	if hugePane {
 		pw := []string{"10001", "20000", "65536", "1000000", "2147483647"}[tp.Draw("c20s.hugepanew", 5)]
 		ed := vLineEdit(func(typ, payload string, nth int) (string, bool) {
@@ -347,17 +357,17 @@ func vC20System(rc *runCtx) {
 	}
 	if cfg.srvTmux == "" && !anyRelayTmux && tp.Bool("c20s.resize", 700) {
 		newCols := int32(20 + tp.Draw("c20s.newcols", 60))
-		vOnChunk(rc, x, armed, 250, func() {
+		hooks = append(hooks, vOnChunk(rc, x, armed, 250, func() {
 			rc.fault("terminal-resized-during-transfer")
 			x.filter.SetTerminalColumns(newCols)
 			cols = newCols
 			resizedAt = x.term.NSentInt()
-		})
+		}))
 	}
 	// the terminal may also change while the stop/continue question is open; the bar goes on in the new width
 	if cfg.srvTmux == "" && !anyRelayTmux && resizedAt < 0 && !hugePane && tp.Bool("c20s.pauseresize", 150) {
 		newCols := int32(20 + tp.Draw("c20s.pausecols", 60))
-		vOnChunk(rc, x, armed, 250, func() {
+		hooks = append(hooks, vOnChunk(rc, x, armed, 250, func() {
 			x.paused = true
 			w.Go("user", x.client, func() {
 				x.kbd.Write([]byte{0x03})
@@ -373,7 +383,7 @@ func vC20System(rc *runCtx) {
 				x.typeKeys("\r", 20*time.Millisecond)
 				resizedAt = x.term.NSentInt()
 			})
-		})
+		}))
 	}
 	before := vSnapshot(dst)
 	x.start()
@@ -385,10 +395,10 @@ func vC20System(rc *runCtx) {
 		// before the change may still be on its way to the terminal at that instant: the first redraw after the
 		// change is not judged either
 		from = resizedAt + 1
-		_, _, evs := x.term.Snapshot()
+		term, _, evs := x.term.Snapshot()
 		for _, e := range evs {
-			if e.Off >= from {
-				from = e.Off + e.N
+			if e.Off >= from && e.Off+e.N <= len(term) && vProgressPct.Match(term[e.Off:e.Off+e.N]) {
+				from = e.Off + e.N // the first progress redraw after the change
 				break
 			}
 		}
@@ -399,7 +409,11 @@ func vC20System(rc *runCtx) {
 	if rc.res.Class != "ok" {
 		return
 	}
-	// a second transfer through the same client: its bar goes by the width in force now
+	// a second transfer through the same client: its bar goes by the width in force now (what did not happen
+	// during the first transfer does not happen during the second)
+	for _, h := range hooks {
+		*h = true
+	}
 	x.settle(11 * time.Second)
 	o2 := cfg.opts()
 	o2.srcPaths, o2.dstDir = spec.paths, dst2
